@@ -29,7 +29,7 @@ func (e *Engine) newCtx(fn *ssa.Function, ct *FuncContract) *FnCtx {
 		heapNames: map[string]Sort{}, subFuncs: map[string]int{}, funcRefs: map[string]bool{}, typeTags: map[string]int{},
 		strLits: map[string]Term{}, strLitText: map[string]string{}, abstracted: map[string]bool{}, assumptions: map[string]bool{},
 		trusted: map[string]bool{}, frameWrites: map[string][]Term{}, oblCount: map[string]int{}, checks: map[string]bool{},
-		usedContracts: map[string]bool{}, subRoots: map[string]Term{}, trustedCalls: map[string]int{}, strLenDone: map[string]bool{}}
+		usedContracts: map[string]bool{}, subRoots: map[string]Term{}, trustedCalls: map[string]int{}, strLenDone: map[string]bool{}, selectIdx: map[*ssa.Select]Term{}, subDone: map[string]bool{}, subIDs: map[string]int{}}
 	if ct != nil {
 		c.modeBV = ct.Modes["bv"]
 		c.modeFP = ct.Modes["fp"]
@@ -105,6 +105,7 @@ func (e *Engine) VerifyFunc(key string) (res *FnResult) {
 	cov.Kind = "cover"
 	c.buildFrameSpec(fr, st)
 	c.buildGuards(fr, st)
+	c.setupOG(fr, st)
 	c.runFunction(fr, st)
 	// postconditions
 	var retPCs []Term
@@ -147,6 +148,7 @@ func (e *Engine) VerifyFunc(key string) (res *FnResult) {
 		}
 	}
 	res.Obls = c.obls
+	res.Decided = append(res.Decided, c.decided...)
 	res.Abstracted = sortedKeys(c.abstracted)
 	res.Assumptions = sortedKeys(c.assumptions)
 	res.Trusted = sortedKeys(c.trusted)
@@ -402,7 +404,7 @@ func (c *FnCtx) buildGuards(fr *Frame, st *State) {
 	mv, mt := env.eval(mx)
 	o, _ := env.scalar(ov, ot)
 	m, _ := env.scalar(mv, mt)
-	g := guardSpec{Obj: o, Mu: m, Exempt: map[string]bool{}}
+	g := guardSpec{Obj: o, Mu: m, Exempt: map[string]bool{}, ObjType: derefType(ot)}
 	if len(fs) >= 4 && fs[2] == "exempt" {
 		for _, f := range strings.Split(fs[3], ",") {
 			g.Exempt[f] = true
@@ -421,5 +423,51 @@ func (c *FnCtx) emitGuardObligations() {
 		tmp := &State{pc: TTrue}
 		o := c.addObl("held", n, nil, tmp, And(c.guardObls[n]...), nil)
 		o.Note = "every access to field " + n + " happens while the guarding mutex is held"
+	}
+}
+
+// relock: lock-invariant reasoning. The first acquisition of a guarding mutex starts the
+// function's critical section (its contract's old() state). Every *later* acquisition comes
+// after a window in which other threads may have changed everything the mutex protects, so
+// the guarded object's fields (and the contents of its maps) are havocked.
+func (c *FnCtx) relock(st *State, mu Term) {
+	if c.lockCount == nil {
+		c.lockCount = map[string]int{}
+	}
+	c.lockCount[mu.S]++
+	if c.lockCount[mu.S] < 2 || c.inSpec > 0 {
+		return
+	}
+	for _, g := range c.guards {
+		if g.Mu.S != mu.S || g.ObjType == nil {
+			continue
+		}
+		s := structOf(g.ObjType)
+		if s == nil {
+			continue
+		}
+		c.noFrame++
+		for i := 0; i < s.NumFields(); i++ {
+			f := s.Field(i)
+			if g.Exempt[f.Name()] || structOf(f.Type()) != nil {
+				continue
+			}
+			loc := fieldLoc(g.ObjType, i, g.Obj)
+			if m, ok := f.Type().Underlying().(*types.Map); ok {
+				// the map object is the same, its contents are not
+				ref := c.readLeaf(st, loc, Leaf{"", SInt})
+				for name, srt := range c.mapHeapNames(m) {
+					h := c.heapGet(st, name, srt)
+					inner := SInt
+					if name != "maplen" {
+						inner = Sort(strings.TrimSuffix(strings.TrimPrefix(string(srt), "(Array Int "), ")"))
+					}
+					c.heapSet(st, name, c.vc.Name("h", Store(h, ref, c.vc.Fresh("relock$map", inner))))
+				}
+				continue
+			}
+			c.havocLoc(st, loc, 0)
+		}
+		c.noFrame--
 	}
 }
